@@ -417,7 +417,10 @@ class Findings:
         for k in self.entries:
             if k.get("kind") != "known":
                 continue
-            if k.get("assert") != v["assert"]:
+            if "assert_re" in k:
+                if not re.fullmatch(k["assert_re"], v["assert"] or ""):
+                    continue
+            elif k.get("assert") != v["assert"]:
                 continue
             cre = k.get("class_re")
             if cre is not None and not re.fullmatch(cre, v.get("class") or ""):
